@@ -16,7 +16,7 @@ def wf_stmt(o) -> bool:
     if isinstance(o, BlockStatement):
         return (isinstance(o._statements, list) and is_bool(o._parallel) and is_bool(o._subcircuit)
                 and forall_range(len(o._statements), lambda k: wf_stmt(o._statements[k])))
-    return isinstance(o, GateStatement)
+    return isinstance(o, GateStatement) and isinstance(o._parameters, dict) and isinstance(o._gate_def, AbstractGate)
 
 
 @spec
